@@ -269,6 +269,74 @@ def fmt(t, depth=0):
     return "%s" % (t,)
 
 
+def linear(t):
+    """integer-linear normal form: (dict repr(atom)->(atom, coeff), const). Sub/Add/Mul-by-const/Neg are opened up."""
+    atoms = {}
+    c = [0]
+
+    def add(term, k):
+        if term[0] == "const" and isinstance(term[1], (int, float)) and not isinstance(term[1], bool):
+            c[0] += k * term[1]
+            return
+        if term[0] == "op":
+            n, a = term[1], term[2]
+            if n == "Add":
+                for x in a:
+                    add(x, k)
+                return
+            if n == "Sub" and len(a) == 2:
+                add(a[0], k)
+                add(a[1], -k)
+                return
+            if n == "Neg" and len(a) == 1:
+                add(a[0], -k)
+                return
+            if n == "Mul":
+                consts = [x for x in a if x[0] == "const" and isinstance(x[1], (int, float)) and not isinstance(x[1], bool)]
+                rest = [x for x in a if x not in consts]
+                if consts and len(rest) == 1:
+                    kk = k
+                    for x in consts:
+                        kk *= x[1]
+                    add(rest[0], kk)
+                    return
+        r = repr(term)
+        if r in atoms:
+            atoms[r] = (term, atoms[r][1] + k)
+        else:
+            atoms[r] = (term, k)
+    add(t, 1)
+    atoms = {r: v for r, v in atoms.items() if v[1] != 0}
+    return atoms, c[0]
+
+
+def linear_eq(a, b):
+    la, ca = linear(a)
+    lb, cb = linear(b)
+    return ca == cb and {r: v[1] for r, v in la.items()} == {r: v[1] for r, v in lb.items()}
+
+
+def swap_self_other(t, a=1, b=2):
+    """exchange parameters a and b in a term (self <-> other)"""
+    if not isinstance(t, tuple) or not t:
+        return t
+    if t[0] == "param":
+        if t[1] == a:
+            return ("param", b, None)
+        if t[1] == b:
+            return ("param", a, None)
+        return t
+    return tuple(swap_self_other(x, a, b) if isinstance(x, tuple) else x for x in t)
+
+
+def erase_param_names(t):
+    if not isinstance(t, tuple) or not t:
+        return t
+    if t[0] == "param":
+        return ("param", t[1], None)
+    return tuple(erase_param_names(x) if isinstance(x, tuple) else x for x in t)
+
+
 def subterms(t):
     """all subterms, pre-order"""
     yield t
@@ -660,6 +728,8 @@ class TermBuilder:
             return ("call", "checked", (simplify(("op", CHECKED[name], tuple(args))),))
         if name in UNWRAPS and args and args[0][0] == "call" and args[0][1] == "checked":
             return args[0][2][0]
+        if name in UNWRAPS and args and args[0][0] == "adt" and args[0][2] in ("Some", "Ok") and len(args[0][3]) == 1:
+            return args[0][3][0][1]
         # float / int intrinsics as operators
         if name in FLOAT_METHODS and (decl.startswith("std::f64::") or decl.startswith("std::f32::") or decl.startswith("core::f64") or decl.startswith("f64::")):
             return simplify(("op", name, tuple(args)))
@@ -711,7 +781,41 @@ class TermBuilder:
             if args[0][0] == "loopvar":
                 args = [self.loop_init(args[0][1], args[0][2])]
             return ("adt", "std::option::Option", "Some", (("0", elem_of(args[0])),))
+        # crate-local straight-line pure helpers (getters, tiny arithmetic helpers) are inlined
+        r = self._inline_local(term, callee, args)
+        if r is not None:
+            return r
         return ("call", callee, tuple(args))
+
+    def _inline_local(self, term, callee, args):
+        if self.depth >= 3 or self.prog is None or not term.callee_is_local():
+            return None
+        cf = self.prog.fn(callee)
+        if cf is None or cf.kind == "Closure":
+            return None
+        key = ("inl", callee)
+        ok = _INLINE_OK.get(key)
+        if ok is None:
+            nb = [b for b in cf.blocks if not b.cleanup]
+            ok = (len(nb) <= 3 and not cf.loop_heads() and len(cf.exits()) == 1
+                  and all(b.term.k in ("return", "goto", "call", "assert") for b in nb)
+                  and not any(cf.local_ty(i).startswith("&mut") for i in range(1, cf.arg_count + 1))
+                  and all((not b.term.k == "call") or (b.term.callee_name() in INLINE_SAFE_CALLEES) for b in nb))
+            _INLINE_OK[key] = ok
+        if not ok:
+            return None
+        subst = {i + 1: a for i, a in enumerate(args)}
+        tb = TermBuilder(cf, self.prog, subst, self.depth + 1)
+        r = tb.return_term()
+        _closure_hook[0] = self._apply_closure_hook
+        if any(x[0] in ("unknown", "rec", "clobber") for x in subterms(r)):
+            return None
+        return r
+
+
+_INLINE_OK = {}
+INLINE_SAFE_CALLEES = {"len", "element_bits", "deref", "borrow", "clone", "as_ref", "is_empty", "m", "k", "buildhasher", "bits_remainder",
+                       "is_some", "is_none", "mean", "delta"}
 
 
 def term_at_call_arg(tb, fn, bb, argi):
